@@ -186,7 +186,7 @@ def extract_suggester():
                         body=body + [ast.Return(value=ast.Name(id='format_str', ctx=ast.Load()))], decorator_list=[], type_params=[])
     m = ast.Module(body=[f], type_ignores=[])
     ast.fix_missing_locations(m)
-    ns = {}
+    ns = dict(vars(mod))          # the block may call helpers of its own module
     exec(compile(m, '<cmd_inspect suggestion block>', 'exec'), ns)
     return ns['suggest']
 
